@@ -64,16 +64,22 @@ def build_cogas(c):
                  emissions_curves=curves, nox_calculation_method=NOxCalculationMethod[c.get("nox", "TIER_3")])
 
 
+def fname(spec):
+    """The name the FEEMS object gets: `label` when the case carries one (labels repeat across switchboards and
+    shaft lines, which FEEMS allows; `name` is the harness's own unique key)."""
+    return spec.get("label", spec["name"])
+
+
 def build_serial(spec, type_, power_type, cls=SerialSystemElectric, **extra):
-    stages = [build_basic(s, swb=spec["swb"], power_type=power_type, name=f"{spec['name']}_{i}") for i, s in enumerate(spec["stages"])]
-    return cls(type_=type_, name=spec["name"], power_type=power_type, components=stages, switchboard_id=SwbId(spec["swb"]),
+    stages = [build_basic(s, swb=spec["swb"], power_type=power_type, name=f"{fname(spec)}_{i}") for i, s in enumerate(spec["stages"])]
+    return cls(type_=type_, name=fname(spec), power_type=power_type, components=stages, switchboard_id=SwbId(spec["swb"]),
                rated_power=Power_kW(spec["rated"]), rated_speed=Speed_rpm(spec.get("speed", 1000.0)), **extra) \
-        if cls is SerialSystemElectric else cls(name=spec["name"], components=stages, switchboard_id=SwbId(spec["swb"]),
+        if cls is SerialSystemElectric else cls(name=fname(spec), components=stages, switchboard_id=SwbId(spec["swb"]),
                                                 rated_power=Power_kW(spec["rated"]), rated_speed=Speed_rpm(spec.get("speed", 1000.0)), **extra)
 
 
 def build_electric_component(spec):
-    k, swb, name = spec["kind"], spec["swb"], spec["name"]
+    k, swb, name = spec["kind"], spec["swb"], fname(spec)
     if k == "generator":
         return build_machine(spec, TypePower.POWER_SOURCE, swb, name=name)
     if k == "genset":
@@ -97,12 +103,12 @@ def build_electric_component(spec):
     if k == "pti_pto":
         return build_serial(spec, None, TypePower.PTI_PTO, cls=PTIPTO, shaft_line_id=spec.get("shaft_line", 1))
     if k in ("battery", "battery_system", "supercap", "supercap_system"):
-        return comps.make_storage(spec)
+        return comps.make_storage(dict(spec, name=name))
     raise ValueError(k)
 
 
 def build_mechanical_component(spec):
-    k, name = spec["kind"], spec["name"]
+    k, name = spec["kind"], fname(spec)
     if k == "main_engine":
         eng = build_engine(dict(spec["engine"], name=name + "_eng"), type_=TypeComponent.MAIN_ENGINE)
         if spec.get("gearbox") is not None:
@@ -124,12 +130,16 @@ class Plant:
     def __init__(self, spec):
         self.spec = spec
         self.by_name = {}
+        self.by_label = {}      # (side, FEEMS name, switchboard / shaft line number) -> spec name
         self.electric = self.mechanical = self.system = None
         order = spec.get("order")
         ecomps = []
         for c in spec.get("electric", []):
             obj = build_electric_component(c)
             self.by_name[c["name"]] = obj
+            self.by_label[("electric", fname(c), c["swb"])] = c["name"]
+            if c["kind"] == "pti_pto":
+                self.by_label[("mechanical", fname(c), c.get("shaft_line", 1))] = c["name"]
             ecomps.append(obj)
         if order is not None:
             ecomps = [ecomps[i] for i in order]
@@ -142,6 +152,8 @@ class Plant:
         for c in spec.get("mechanical", []):
             obj = self.by_name[c["name"]] if c["kind"] == "pti_pto_ref" else build_mechanical_component(c)
             self.by_name[c["name"]] = obj
+            if c["kind"] != "pti_pto_ref":
+                self.by_label[("mechanical", fname(c), c["shaft_line"])] = c["name"]
             mcomps.append(obj)
         morder = spec.get("mech_order")
         if morder is not None:
@@ -159,7 +171,40 @@ class Plant:
             self.system = MechanicalPropulsionSystemWithElectricPowerSystem(spec.get("name", "plant"), self.electric, self.mechanical)
 
 
+    def find(self, side, feems_name, node):
+        """The component FEEMS calls `feems_name` on switchboard / shaft line `node` of the electric / mechanical side."""
+        key = self.by_label.get((side, feems_name, int(node)))
+        return None if key is None else self.by_name[key]
+
+
 # ------------------------------------------------------------------ generators
+
+LABELS = {"generator": "Generator", "genset": "Genset", "fuel_cell_system": "Fuel cell", "coges": "COGES", "other_load": "Hotel load",
+          "drive": "Propulsion drive", "pti_pto": "PTI/PTO", "battery": "Battery", "battery_system": "Battery", "supercap": "Supercapacitor",
+          "supercap_system": "Supercapacitor", "main_engine": "Main engine", "mech_load": "Propeller"}
+
+
+def relabel(spec):
+    """Gives every component the name a user would: "Genset 1", "Genset 2" … counted per switchboard / shaft line, so that
+    the same name appears on several switchboards / shaft lines (FEEMS requires unique names only within one category of
+    one switchboard / shaft line). A PTI/PTO sits on both a switchboard and a shaft line: its number is free on both."""
+    used = set()
+    for c in spec.get("electric", []) + spec.get("electric_objects", []) + spec.get("mechanical", []):
+        if c["kind"] == "pti_pto_ref":
+            continue
+        nodes = []
+        if "swb" in c:
+            nodes.append(("swb", c["swb"]))
+        if "shaft_line" in c:
+            nodes.append(("line", c["shaft_line"]))
+        base = LABELS[c["kind"]]
+        k = 1
+        while any((base, k, nd) in used for nd in nodes):
+            k += 1
+        for nd in nodes:
+            used.add((base, k, nd))
+        c["label"] = f"{base} {k}"
+    return spec
 
 FUELS_ENGINE = [("DIESEL", "FOSSIL"), ("HFO", "FOSSIL"), ("NATURAL_GAS", "FOSSIL"), ("NATURAL_GAS", "BIO"), ("METHANOL", "FOSSIL"),
                 ("METHANOL", "BIO"), ("LFO", "FOSSIL"), ("VLSFO", "FOSSIL"), ("DIESEL", "BIO"), ("ETHANOL", "BIO"),
